@@ -179,6 +179,13 @@ static void observe_map(qtreetbl_t *t, const model_t *m, const char *after) {
     errno = 0; if (t->putobj(t, "x", 0, "y", 1) != false || errno != EINVAL) vc_viol("map:einval", "putobj(namesize 0) not refused with EINVAL");
 }
 
+/* copies taken BEFORE the operation under test: they must survive replacement / removal / clear of their element */
+static void precopy_map(qtreetbl_t *t, const model_t *m) {
+    for (int i = 0; i < U; i++) if (m->present[i] && VAL[m->val[i]].n) {
+        size_t sz = 0; void *d = is_strcfg() ? t->get(t, (const char *)KEY[i].b, &sz, true) : t->getobj(t, KEY[i].b, KEY[i].n, &sz, true);
+        if (d) hold(d, VAL[m->val[i]].b, VAL[m->val[i]].n, "get(newmem) taken before the operation");
+    }
+}
 /* walk oracle: complete walk from a zeroed cursor must produce exactly the model's sorted entries */
 static void do_walk(qtreetbl_t *t, model_t *m, int newmem, int check, const char *after) {
     qtreetbl_obj_t ob; memset(&ob, 0, sizeof ob);
@@ -327,6 +334,7 @@ static int transition(const uint16_t *hist, int d, int opi, char *ckey, int verb
         vc_asan_check();   /* reports raised by the history prefix belong to the transitions that ended in those ops */
         snprintf(after, sizeof after, "op %d", opi);
         vc_label(OPS[opi].label);
+        if (!MODE_WALK) precopy_map(t, &m);
         if (apply(t, &m, &OPS[opi], 1, after) < 0) dead = 1;
     }
     if (!dead) {
